@@ -514,6 +514,59 @@ impl Family for DiagnosticSpans {
                     }
                 }
             }
+            // a rule about an ATTRIBUTE is reported on an attribute with that directive (not on the element that carries
+            // it, not on a neighbouring attribute)
+            if d.level == "error" && matches!(d.code.as_str(), "E023" | "E024" | "E026" | "E027" | "E028") {
+                let directives: Vec<&str> = violations.iter().filter(|v| v.code == d.code && v.file == fi).filter_map(|v| v.anchor.as_deref()).filter_map(|a| a.strip_prefix("attr:")).collect();
+                if !directives.is_empty() && violations.iter().filter(|v| v.code == d.code && v.file == fi).all(|v| v.anchor.is_some()) {
+                    // (attribute node, it is the first of its directive on its element)
+                    fn attrs_of<'a>(n: &'a Node, out: &mut Vec<(&'a Node, bool)>) {
+                        let mut seen: Vec<&str> = vec![];
+                        for c in &n.children {
+                            if matches!(c.kind, "attr" | "fileattr") {
+                                let d = c.get("directive").unwrap_or("");
+                                out.push((c, !seen.contains(&d)));
+                                seen.push(d);
+                            }
+                        }
+                        for c in &n.children {
+                            attrs_of(c, out);
+                        }
+                    }
+                    let mut all = vec![];
+                    attrs_of(&r.tree, &mut all);
+                    // (a repeated attribute: the REPEAT is at fault, the first use is what the note points at)
+                    let repeats_only = d.code == "E026";
+                    let on_one = all.iter().filter(|(a, first)| a.get("directive").map_or(false, |x| directives.contains(&x)) && !(repeats_only && *first)).filter_map(|(a, _)| a.pos.as_ref()).any(|p| le(r.tok_pos[p.first].0, s) && le(t, r.tok_pos[p.last].1));
+                    obligations += 1;
+                    if !on_one {
+                        out.violate(format!("c09/diagnostic/{}/span-not-on-the-offending-attribute", d.code), ctx(&format!("the rule is violated by the attribute(s) {directives:?}: the span must lie on one of them")));
+                    }
+                }
+            }
+            // a tag out of range is reported on a tag's literal; a tag in a compact struct on a tagged field of a compact
+            // struct (not on the struct, not on an untagged neighbour)
+            if d.level == "error" && matches!(d.code.as_str(), "E021" | "E015") {
+                fn collect<'a>(n: &'a Node, compact: bool, code: &str, out: &mut Vec<&'a Node>) {
+                    let compact = if n.kind == "struct" { n.get("compact") == Some("true") } else { compact };
+                    let hit = if code == "E021" { n.kind == "tagvalue" } else { n.kind == "field" && compact && n.get("tag").map_or(false, |t| t != "none") };
+                    if hit {
+                        out.push(n);
+                    }
+                    for c in &n.children {
+                        collect(c, compact, code, out);
+                    }
+                }
+                let mut places = vec![];
+                collect(&r.tree, false, &d.code, &mut places);
+                if !places.is_empty() {
+                    obligations += 1;
+                    let on_one = places.iter().filter_map(|n| n.pos.as_ref()).any(|p| le(r.tok_pos[p.first].0, s) && le(t, r.tok_pos[p.last].1));
+                    if !on_one {
+                        out.violate(format!("c09/diagnostic/{}/span-not-on-the-offending-{}", d.code, if d.code == "E021" { "tag-literal" } else { "tagged-field" }), ctx("the span must lie on one of the places where the rule can be violated in this file"));
+                    }
+                }
+            }
             // the element the message names: for the codes listed in NAMES_ITS_PLACE the message quotes the identifier
             // of the member or definition at fault, and the span has to lie on that element (not on a neighbour)
             if let Some(extent) = named_element_extent(r, &d.message) {
